@@ -231,6 +231,24 @@ theorem inline_output_is_model_step (g : GW) (s : Str) :
     (runInline gwSplit g [] [s]).2 = (step g (.line s)).2.sent := by
   simp [runInline, gwSplit_sent]
 
+/-! ## Part 2a — end to end: bytes in, gateway state out -/
+
+/-- THE PROPERTY'S FIRST SENTENCE, END TO END (asyncio flavour).  Whatever the reader loop gets
+    from the socket per read, and wherever connections are lost and re-made in between, the
+    gateway's state afterwards is the model's `run` on the complete newline-terminated lines of
+    the bytes received — a function of those lines alone. -/
+theorem state_is_function_of_lines_reader (dec : Bytes → Str) (g : GW) (reads : List (Option Bytes)) :
+    (runInline gwSplit g [] (tcpReader dec {} reads).2).1
+      = run g (((segments (readBytes reads)).1.map dec).map Op.line) := by
+  rw [inline_is_model_run, tcp_reader_loop, dataReceived_eq]
+  simp
+
+theorem state_is_function_of_lines_events (dec : Bytes → Str) (g : GW) (evs : List ConnEv) :
+    (runInline gwSplit g [] (feedEvents true dec {} evs).2).1
+      = run g (((segments (dataOf evs).flatten).1.map dec).map Op.line) := by
+  rw [inline_is_model_run, reconnect_is_concatenation, dataReceived_eq]
+  simp
+
 def l1 : Str := "5;1;1;0;2;1\n".toList
 def l2 : Str := "255;255;3;0;3;\n".toList
 def fresh22 : GW := { const := .v22 }
